@@ -602,6 +602,24 @@ func one(o *hout.Out, tmp string, idx int, desc string, doc *generator.Doc, cfg 
 		o.Nontrivial("C12", desc+line[:80])
 		return nil
 	}
+	// the property itself: a schema with a duplicate field number or message type must be rejected
+	{
+		seenNum, seenMt := map[string]string{}, map[string]string{}
+		for _, f := range doc.Fields {
+			if prev, dup := seenNum[f.Number]; dup {
+				o.Fail("C12", "duplicate-accepted", fmt.Sprintf("%s: field number %s is defined twice (%s, %s) and the generator accepted the schema", desc, f.Number, prev, f.Name))
+				break
+			}
+			seenNum[f.Number] = f.Name
+		}
+		for _, m := range doc.Messages {
+			if prev, dup := seenMt[m.MsgType]; dup {
+				o.Fail("C12", "duplicate-accepted", fmt.Sprintf("%s: message type %s is defined twice (%s, %s) and the generator accepted the schema", desc, m.MsgType, prev, m.Name))
+				break
+			}
+			seenMt[m.MsgType] = m.Name
+		}
+	}
 	lines, pkg, _ := abstractPackage(dirs[0], o, desc)
 	o.Emit("corr", "C12", line, strings.Join(lines, " ;; "))
 	o.Count("C12.ok")
